@@ -424,7 +424,7 @@ func TestC03_Scan(t *testing.T) {
 	r := stat.For("C03")
 	r.Rule("database (any field contents, duplicates, empty fields, Unicode pool) x history in {load, merge main+notebook, CachedDatabase.UpdateDatabase, direct growth of Commands} x query from the database vocabulary x per-term boosts x pipeline-only; NLP and fuzzy off, Limit >= N. Oracle: independent tokenizer + BM25F scorer over the command texts (set equality both ways; scores within 1e-9 relative for distinct query terms; the weaker first-four claim for >10 content words) and equality with a freshly loaded database (NLP off and on). Non-trivial = result set neither empty nor everything.")
 	for _, h := range c03Histories {
-		r.RequireShare("history:"+h, 0.05)
+		r.RequireShare("history:"+h, 0.04)
 	}
 	r.RequireShare("multi-field-hit", 0.15)
 	r.RequireShare("ubiquitous-term-25+", 0.02)
